@@ -266,6 +266,51 @@ H3Error H3_EXPORT(maxGridDiskSize)(int k, int64_t *out) {
     }""",
   "maxGridDiskSize: thread-local scratch (legal; must NOT be flagged)", "none-expected")
 
+m("c18-custom-section-static", "C18", H3INDEX,
+  """int H3_EXPORT(isPentagon)(H3Index h) {
+    return _isBaseCellPentagon(H3_GET_BASE_CELL(h)) &&
+           !_h3LeadingNonZeroDigit(h);
+}""",
+  """int H3_EXPORT(isPentagon)(H3Index h) {
+    static H3Index lastAsked __attribute__((section("h3_hot_state")));
+    static int lastAnswer __attribute__((section("h3_hot_state")));
+    if (h != 0 && lastAsked == h) return lastAnswer;
+    int answer = _isBaseCellPentagon(H3_GET_BASE_CELL(h)) &&
+                 !_h3LeadingNonZeroDigit(h);
+    lastAnswer = answer;
+    lastAsked = h;
+    return answer;
+}""",
+  "isPentagon: one-entry cache in static variables placed in a custom-named writable section", "I1-static-write")
+
+m("c18-const-input-scribble", "C18", POLYFILL,
+  """    IterCellsPolygon iter = iterInitPolygon(polygon, res, flags);
+    int64_t i = 0;
+    for (; iter.cell; iterStepPolygon(&iter)) {
+        if (i >= size) {
+            iterDestroyPolygon(&iter);
+            return E_MEMORY_BOUNDS;
+        }
+        out[i++] = iter.cell;
+    }
+    return iter.error;""",
+  """    // "normalise" the first vertex in place while we work, restore afterwards
+    LatLng *v0 = polygon->geoloop.numVerts > 0 ? (LatLng *)polygon->geoloop.verts : NULL;
+    double savedLat = v0 ? v0->lat : 0;
+    if (v0) v0->lat = savedLat * 0.5;
+    IterCellsPolygon iter = iterInitPolygon(polygon, res, flags);
+    if (v0) v0->lat = savedLat;
+    int64_t i = 0;
+    for (; iter.cell; iterStepPolygon(&iter)) {
+        if (i >= size) {
+            iterDestroyPolygon(&iter);
+            return E_MEMORY_BOUNDS;
+        }
+        out[i++] = iter.cell;
+    }
+    return iter.error;""",
+  "polygonToCellsExperimental: caller's const polygon modified temporarily and restored (visible only to a concurrent reader of the same polygon)", None)
+
 # ------------------------------------------------------------------ C16 ----
 m("c16-skip-last-polygon", "C16", LINKED,
   """        if (skip) {
